@@ -28,14 +28,24 @@ def run(n=3):
         mch.send_each(None)
         mch.waitclose()
         out["closed"] = all(ch.isclosed() for ch in mch)
+        try:  # the members are closed now: send_each refuses like Channel.send does
+            mch.send_each(1)
+            out["send_each_closed"] = "accepted"
+        except OSError:
+            out["send_each_closed"] = "OSError"
+        except Exception as e:  # noqa: BLE001
+            out["send_each_closed"] = type(e).__name__
         # a failing member
-        bad = group.remote_exec("channel.send(channel.gateway.id)\nif channel.gateway.id == 'g1-worker':\n    raise ValueError('boom')\n")
+        bad = group.remote_exec("channel.send(channel.gateway.id)\nif channel.gateway.id == 'g0-worker':\n    raise ValueError('boom')\nimport time\ntime.sleep(0.7)\n")
         out["ids"] = sorted(bad.receive_each())
+        out["all_closed_at_raise"] = True
         try:
             bad.waitclose()
             out["waitclose"] = "returned"
         except bad[0].RemoteError as e:
             out["waitclose"] = "RemoteError:boom" if "boom" in str(e) else "RemoteError"
+            # waitclose() waits for every member, also after one of them has reported a failure
+            out["all_closed_at_raise"] = all(ch.isclosed() for ch in bad)
         except Exception as e:  # noqa: BLE001
             out["waitclose"] = type(e).__name__
         try:
